@@ -4,7 +4,7 @@
    Part B (MathComp): algebra of relabelling the unknowns and of the common reference.
    Not a theorem: the size of the analytic-inner / quadrature-outer asymmetry (measured, calib/C06.json). *)
 From OM Require Import Base.Lists Base.Ops Geom.MeshTopo Geom.GeomModel Geom.GeomProofs Geom.GeomFile Geom.GeomFileProofs
-  Geom.MeshTopoProofs Geom.Equivariance.
+  Geom.MeshTopoProofs Geom.FloodProofs Geom.Equivariance.
 From Coq Require Import Permutation.
 Local Open Scope Z_scope.
 
@@ -125,6 +125,26 @@ Theorem whole_mesh_flip_keeps_consistent_mesh : forall ts,
   /\ (has_correct_orientation ts = true -> correct_local_orientation (map tri_flip ts) = map tri_flip ts).
 Proof. intros ts. split; [apply flip_keeps_verdict|apply flip_consistent_untouched]. Qed.
 Print Assumptions whole_mesh_flip_keeps_consistent_mesh.
+
+(* the repair itself: on a connected mesh of non-degenerate triangles that admits a coherent orientation [tgt] (no
+   directed edge used by two triangles) agreeing with the first triangle, the stack-based flood fill of
+   Mesh::correct_local_orientation ends exactly with [tgt]: afterwards every adjacent pair is consistent *)
+Theorem flood_fill_consistent : forall orig tgt : list tri,
+  (0 < length orig)%nat -> length tgt = length orig ->
+  (forall k, (k < length orig)%nat -> nondeg (nth k orig (0, 0, 0)%nat)) ->
+  (forall k, (k < length orig)%nat -> nth k tgt (0, 0, 0)%nat = nth k orig (0, 0, 0)%nat \/ nth k tgt (0, 0, 0)%nat = tri_flip (nth k orig (0, 0, 0)%nat)) ->
+  nth 0 tgt (0, 0, 0)%nat = nth 0 orig (0, 0, 0)%nat ->
+  (forall k j, (k < length orig)%nat -> (j < length orig)%nat -> k <> j ->
+     forall e, In e (tri_edges (nth k tgt (0, 0, 0)%nat)) -> In e (tri_edges (nth j tgt (0, 0, 0)%nat)) -> False) ->
+  (forall j, (j < length orig)%nat -> reach orig j) ->
+  has_correct_orientation orig = false -> correct_local_orientation orig = tgt.
+Proof. exact repair_reaches_target. Qed.
+Print Assumptions flood_fill_consistent.
+
+(* a tetrahedron whose third face is written the wrong way round *)
+Example flood_fill_tetrahedron :
+  correct_local_orientation [(0, 1, 2); (0, 3, 1); (3, 1, 2); (0, 2, 3)]%nat = [(0, 1, 2); (0, 3, 1); (1, 3, 2); (0, 2, 3)]%nat.
+Proof. vm_compute. reflexivity. Qed.
 
 (* Gauss' law enters as the relation between the two solid-angle signs handed to the reader: s for the files as they
    are, -s after reversing every mesh of the interface *)
